@@ -35,6 +35,7 @@ type NativeCall struct {
 	ExtraC  string // additional C definitions (e.g. extern callbacks)
 	Name    string
 	Objects []string
+	Track   bool // wrap ddp_reallocate: report wrong sizes, foreign releases and blocks left at the end
 }
 
 type NativeResult struct {
@@ -71,6 +72,25 @@ func (nc *NativeCall) Driver() string {
 	sb.WriteString("static double u2d(uint64_t u){double d; memcpy(&d,&u,8); return d;}\nstatic uint64_t d2u(double d){uint64_t u; memcpy(&u,&d,8); return u;}\n")
 	sb.WriteString("extern ddpvtable ddpint_vtable, ddpfloat_vtable, ddpbyte_vtable, ddpbool_vtable, ddpchar_vtable, ddpstring_vtable, ddpintlist_vtable;\n")
 	sb.WriteString(nc.ExtraC)
+	if nc.Track {
+		sb.WriteString(`typedef struct { void *p; size_t n; int live; } vblk;
+static vblk VB[8192]; static int vnb, vbad;
+void *__real_ddp_reallocate(void *, size_t, size_t);
+void *__wrap_ddp_reallocate(void *p, size_t oldn, size_t newn) {
+	if (p) {
+		int f = -1;
+		for (int i = 0; i < vnb; i++) if (VB[i].live && VB[i].p == p) f = i;
+		if (f < 0) { printf("BAD release or resize of a block that is not owned\n"); vbad++; }
+		else { if (VB[f].n != oldn) { printf("BAD stated size %zu, true size %zu\n", oldn, VB[f].n); vbad++; } VB[f].live = 0; }
+	} else if (oldn != 0) { printf("BAD old size %zu stated for NULL\n", oldn); vbad++; }
+	if (p && vbad && newn == 0) { fflush(stdout); }
+	void *r = __real_ddp_reallocate(p, oldn, newn);
+	if (newn != 0 && r && vnb < 8192) { VB[vnb].p = r; VB[vnb].n = newn; VB[vnb].live = 1; vnb++; }
+	return r;
+}
+static void vreport(void) { int live = 0; for (int i = 0; i < vnb; i++) if (VB[i].live) live++; printf("TRACK bad=%d live=%d\n", vbad, live); }
+`)
+	}
 	// prototype
 	var ptypes, callArgs []string
 	var setup, dump strings.Builder
@@ -126,7 +146,7 @@ func (nc *NativeCall) Driver() string {
 					fmt.Fprintf(&dump, "\tfor (ddpint k = 0; k < %s.len; k++) printf(\"LIST%d_%%lld %%llx\\n\", (long long)k, (unsigned long long)(uint64_t)%s.arr[k]);\n", v, i, v)
 				}
 			}
-		case "text", "outtext":
+		case "text", "outtext", "reftext":
 			ptypes = append(ptypes, "ddpstring*")
 			if a.Bytes == nil {
 				fmt.Fprintf(&setup, "\tddpstring %s = {NULL, 0};\n", v)
@@ -135,7 +155,7 @@ func (nc *NativeCall) Driver() string {
 				fmt.Fprintf(&setup, "\tddpstring %s; %s.cap = %d; %s.str = ddp_reallocate(NULL, 0, %d); memcpy(%s.str, %s, %d);\n", v, v, n, v, n, v, cbytes(append(append([]byte{}, a.Bytes...), 0)), n)
 			}
 			callArgs = append(callArgs, "&"+v)
-			if a.Dump || a.Kind == "outtext" {
+			if a.Dump || a.Kind == "outtext" || a.Kind == "reftext" {
 				fmt.Fprintf(&dump, "\tprintf(\"TEXT%d \"); for (ddpint j = 0; j + 1 < %s.cap; j++) printf(\"%%02x\", (unsigned char)%s.str[j]); printf(\" cap %%lld strlen %%lld\\n\", (long long)%s.cap, (long long)(%s.str ? strlen(%s.str) : 0));\n", i, v, v, v, v, v)
 			}
 		case "any":
@@ -163,6 +183,18 @@ func (nc *NativeCall) Driver() string {
 		fmt.Fprintf(&sb, "\t%s r = %s;\n\tprintf(\"RET %%llx\\n\", (unsigned long long)(uint64_t)r);\n", nc.RetC, call)
 	}
 	sb.WriteString(dump.String())
+	if nc.Track {
+		for i, a := range nc.Args {
+			v := fmt.Sprintf("a%d", i)
+			switch a.Kind {
+			case "outtext", "reftext":
+				fmt.Fprintf(&sb, "\tddp_free_string(&%s);\n", v)
+			case "outlist":
+				fmt.Fprintf(&sb, "\tddp_free_%s(&%s);\n", a.CType, v)
+			}
+		}
+		sb.WriteString("\tvreport();\n")
+	}
 	sb.WriteString("\tprintf(\"DONE\\n\");\n\tfflush(stdout);\n\treturn 0;\n}\n")
 	return sb.String()
 }
@@ -215,6 +247,9 @@ func RunNativeOpt(env *build.Env, nc *NativeCall, valgrind bool) *NativeResult {
 	exe := filepath.Join(dir, "replay")
 	args := []string{"-O0", "-g", "-std=c11", "-D_POSIX_C_SOURCE=200809L", "-I" + filepath.Join(build.Repo, "lib", "runtime", "include"), "-o", exe, drv, obj}
 	args = append(args, nc.Objects...)
+	if nc.Track {
+		args = append(args, "-Wl,--wrap=ddp_reallocate")
+	}
 	args = append(args, filepath.Join(env.Inst, "lib", "ddp_list_types_defs.o"), "-L"+filepath.Join(env.Inst, "lib"), "-lddpstdlib", "-lddpruntime", "-lm")
 	if out, err := exec.Command("gcc", args...).CombinedOutput(); err != nil {
 		res.Err = "link: " + err.Error() + " " + string(out)
@@ -243,6 +278,43 @@ func RunNativeOpt(env *build.Env, nc *NativeCall, valgrind bool) *NativeResult {
 	case <-time.After(60 * time.Second):
 		c.Process.Kill()
 		res.Err = "timeout"
+	}
+	res.Stdout, res.Stderr = so.String(), se.String()
+	return res
+}
+
+// RunCValgrind compiles a C driver with gcc against the freshly built runtime library and the
+// generated list functions and runs it under valgrind (errors: exit status 99).
+func RunCValgrind(env *build.Env, name, src string) *NativeResult {
+	res := &NativeResult{Driver: src}
+	if err := env.ReplayTree(); err != nil {
+		res.Err = "replay tree: " + err.Error()
+		return res
+	}
+	dir, err := os.MkdirTemp(env.Dir, "cval-")
+	if err != nil {
+		res.Err = err.Error()
+		return res
+	}
+	p := filepath.Join(dir, name+".c")
+	os.WriteFile(p, []byte(src), 0o644)
+	exe := filepath.Join(dir, name)
+	args := []string{"-g", "-O0", "-std=c11", "-D_POSIX_C_SOURCE=200809L", "-I" + filepath.Join(build.Repo, "lib", "runtime", "include"), "-o", exe, p,
+		filepath.Join(env.Inst, "lib", "libddpruntime.a"), filepath.Join(env.Inst, "lib", "ddp_list_types_defs.o"), "-lm"}
+	if out, err := exec.Command("gcc", args...).CombinedOutput(); err != nil {
+		res.Err = "gcc: " + err.Error() + " " + string(out)
+		return res
+	}
+	c := exec.Command("valgrind", "-q", "--error-exitcode=99", "--leak-check=no", exe)
+	c.Dir = dir
+	var so, se strings.Builder
+	c.Stdout, c.Stderr = &so, &se
+	if err := c.Run(); err != nil {
+		if ee, ok := err.(*exec.ExitError); ok {
+			res.Exit = ee.ExitCode()
+		} else {
+			res.Err = err.Error()
+		}
 	}
 	res.Stdout, res.Stderr = so.String(), se.String()
 	return res
